@@ -1,0 +1,13 @@
+//go:build verif
+
+// Machine-checked specifications for package tubes (comment-only file; read by
+// /verif/bin/hopvc).
+
+package tubes
+
+// Accept hands out tubes taken from the muxer's queue; queued tubes are real
+// (non-nil) *Reliable or *Unreliable objects.  Channel hand-off is not modelled,
+// so this is an assumed contract.
+//@ func (m *Muxer) Accept() (t Tube, err error)
+//@   assume channel receive from the muxer's tube queue; queued tubes are non-nil
+//@   ensures err == nil ==> t != nil && ref(t) != nil
